@@ -53,7 +53,12 @@ class LogixScenario:
         self.drv = pycomm3.LogixDriver(self.path, init_program_tags=init_program_tags)
         self.opened = None
         if open_driver:
+            # open() moves the symbol list and the templates (tens of kilobytes at most), never the tags' data: its own, smaller budget,
+            # so that a driver that loops in open() is stopped after seconds, not minutes
+            full_budget = self.b.net.call_budget
+            self.b.net.call_budget = min(full_budget, 300000)
             self.opened = self.b.call("open", self.drv.open)
+            self.b.net.call_budget = full_budget
 
     def use_second_driver(self):
         """The documented way to put several drivers on one PLC (docs/getting_started.rst): a second LogixDriver with
